@@ -873,7 +873,7 @@ func sequential(r *vkit.Run, dir string) {
 		runSeq(r, dir, c)
 		r.Bucket("directed_cases", 1)
 	}
-	n := r.N(260, 2500)
+	n := r.N(400, 2500)
 	for i := 0; i < n; i++ {
 		allFull := i%8 == 7
 		future := i%3 == 1
